@@ -9,6 +9,7 @@
 //	rtx  <msg>      the same without the oracle (message deliberately not well-formed)
 //	streamrt <msg> ; <msg> ; ...   all messages written to one buffer, read back with one reader
 //	dec  <bytes>    FromNet normal form or err
+//	decbad <bytes>  the same for bytes that are malformed by construction (oracle: must be err)
 //	stream <bytes>  repeated FromMsgReader on one reader
 //	net  <bytes>    (netstream) bytes written on a libp2p stream into handleNewStream
 //	cbor <bytes> / cborenc <value>   the dag-cbor codec alone (basicnode)
@@ -1078,6 +1079,19 @@ func runOp(out *reg.Out, builder bool, op []string) string {
 		}
 		out.Cov("dec:ok")
 		out.CovN("dec:ok-blocks", len(m.Blocks()))
+		return "ok " + nf(m)
+	case "decbad":
+		// bytes the generator built to be malformed: FromNet must report an error
+		b, err := unhx(op[1])
+		if err != nil {
+			return "bad-op"
+		}
+		m, err := fromNet(out, b)
+		if err != nil {
+			out.Cov("decbad:err")
+			return "err"
+		}
+		out.Fail("malformed-accepted", "a frame holding a complete message FOLLOWED BY EXTRA BYTES was decoded and delivered instead of being rejected")
 		return "ok " + nf(m)
 	case "stream":
 		b, err := unhx(op[1])
